@@ -1908,6 +1908,9 @@ class Walker:
                     if isinstance(val, dict) and val and len(val) <= 8 and all(
                             isinstance(k, str) and isinstance(v, str) for k, v in val.items()):
                         return ("dict", tuple((("const", k), ("const", v)) for k, v in val.items()))
+                    if e.attr not in LIBRARY_CONSTANTS and isinstance(val, (int, float)) and not isinstance(val, bool):
+                        # a constant the library did not have (a literal that was given a name): the number it names
+                        return ("const", val)
                     return self.subst.get(("K", e.attr), ("K", e.attr))
                 mi2 = self.repo.modules.get(base[1])
                 if mi2 is not None and base[1].startswith("opfython"):
@@ -2476,9 +2479,12 @@ def derived_phis(w) -> Dict[Term, Term]:
                 if u == v or iu[0] == "undef":
                     continue
                 fi, fe = plug(iv, iu), plug(ev, eu)
+                if fi != fe and eu[0] != "phi" and plug_back(fe, HOLE, iu) == iv:
+                    fi = fe  # the start value is the same function of u0 (u0 may also occur in parts f does not touch)
                 if fi == fe and any(x == HOLE for x in subterms(fi)) and fi != HOLE:
                     phi_u = ("phi", li.lid, u)
-                    if not any(x == ("phi", li.lid, v) for x in subterms(fi)):
+                    if not any(x == ("phi", li.lid, v) for x in subterms(fi)) \
+                            and not any(x == phi_u for x in subterms(fi)):
                         out[("phi", li.lid, v)] = plug_back(fi, HOLE, phi_u)
                         break
     return out
@@ -2683,6 +2689,9 @@ def has_guard(guards, term: Term) -> bool:
     """Is `term` (positive form) among the guards, whatever polarity/spelling the source used?"""
     return term in facts(guards)
 
+
+LIBRARY_CONSTANTS = ("EPSILON", "FLOAT_MAX", "NIL", "WHITE", "GRAY", "BLACK", "IRRELEVANT", "RELEVANT", "STANDARD",
+                     "PROTOTYPE", "MAX_ARC_WEIGHT", "MAX_DENSITY")
 
 ARRAY_VIEWS = ("ravel", "flatten", "reshape", "astype", "copy", "squeeze", "tolist")
 
